@@ -113,6 +113,12 @@ def main():
                 broken = {'stage': 'audit', 'bad_axioms': aud['bad'], 'missing': aud['missing'],
                           'forbidden': hits, 'log': aud['log']}
             discharged = len([n for n in theorem_list if n in aud['axioms'] and n not in aud['bad']])
+            if tier == 'thorough' and not broken:
+                rk_ok, rk_log = leanstage.recheck(modules)
+                lean_info['leanchecker'] = 'ok' if rk_ok else 'FAILED'
+                if not rk_ok:
+                    broken = {'stage': 'recheck', 'theorems': modules, 'log_tail': rk_log[-1500:]}
+                    discharged = 0
     # ---- (4) correspondence + monitors ----------------------------------------------------
     rng = random.Random(common.seed_for(seed, prop, tier))
     cases = list(spec['cases'](rng, tier))
